@@ -89,8 +89,9 @@ def observed_points(pose):
     return (conf != 0)
 
 
-def choose_op(rng, pose, allow_tf):
-    """one operation whose precondition holds in the current state, as a JSON-able dict (or None)"""
+def choose_op(rng, pose, allow_tf, want=None):
+    """one operation whose precondition holds in the current state, as a JSON-able dict (or None).
+    `want`: the kind a planned scenario asks for at this step (used when its precondition holds; a trailing `!` asks for a strict subset of points)"""
     be = kind_of(pose.body)
     data, miss, conf = arrays(pose.body)
     F, P, N, D = data.shape
@@ -117,6 +118,11 @@ def choose_op(rng, pose, allow_tf):
         if sum(len(p) for _, p in comps) > 1: c += ["remove_points"]
         if N >= 2: c += ["normalize"]
         c += ["normalize_distribution"]
+    strict = False
+    if want is not None:
+        strict = want.endswith("!")
+        if want.rstrip("!") in c:
+            c = [want.rstrip("!")]
     for _ in range(12):
         k = rng.choice(c)
         if k == "select_frames":
@@ -132,7 +138,11 @@ def choose_op(rng, pose, allow_tf):
         if k == "get_components":
             names = [n for n, _ in comps]
             sel = rng.sample(names, rng.randint(1, len(names)))
-            pts = {n: rng.sample(p, rng.randint(1, len(p))) for n, p in comps if n in sel and p and rng.random() < 0.5}
+            if strict:
+                sel = [n for n, p in comps if len(p) >= 2] or sel
+                pts = {n: rng.sample(p, rng.randint(1, len(p) - 1)) for n, p in comps if n in sel and len(p) >= 2}
+            else:
+                pts = {n: rng.sample(p, rng.randint(1, len(p))) for n, p in comps if n in sel and p and rng.random() < 0.5}
             return {"k": k, "components": sel, "points": pts or None}
         if k == "remove_components":
             names = [n for n, _ in comps]
@@ -203,7 +213,7 @@ def apply(pose, op):
     raise NotImplementedError(k)
 
 
-def run_sequence(case, seed, length, start, allow_tf):
+def run_sequence(case, seed, length, start, allow_tf, plan=None):
     """→ {"ops": [...], "steps": [{"op", "backend", "shape", "broken": [...]} | {"op", "error"}], "roundtrip": None | str}"""
     from pose_format import Pose
     rng = random.Random(seed)
@@ -216,10 +226,10 @@ def run_sequence(case, seed, length, start, allow_tf):
             if start == "tf": pose = Pose(pose.header, pose.body.tensorflow())
             b0 = invariant(pose)
             out["steps"].append({"op": "construct", "backend": kind_of(pose.body), "shape": list(arrays(pose.body)[0].shape), "broken": b0})
-            for _ in range(length):
+            for step_no in range(max(length, len(plan or []))):
                 if b0:
                     break
-                op = choose_op(rng, pose, allow_tf)
+                op = choose_op(rng, pose, allow_tf, plan[step_no] if plan and step_no < len(plan) else None)
                 out["ops"].append(op)
                 try:
                     pose = apply(pose, op)
@@ -245,5 +255,5 @@ if __name__ == "__main__":
     for line in sys.stdin:
         if line.strip():
             c = json.loads(line)
-            sys.stdout.write(json.dumps(run_sequence(c["case"], c["seed"], c["length"], c["start"], True)) + "\n")
+            sys.stdout.write(json.dumps(run_sequence(c["case"], c["seed"], c["length"], c["start"], True, c.get("plan"))) + "\n")
             sys.stdout.flush()
